@@ -892,6 +892,7 @@ func main() {
 	from := flag.Int("from", 0, "first case (child)")
 	mem := flag.Uint64("mem", 2<<30, "address-space limit of the child")
 	tmo := flag.Duration("timeout", 20*time.Second, "per-case limit")
+	maxCrash := flag.Int("maxcrash", 6, "stop after this many cases without a result")
 	casesFile := flag.String("cases", "", "run the cases of this JSON-lines file instead of generating")
 	ex := flag.Int("exhaust", 0, "run every graph on this many nodes against the in-harness oracles")
 	sample := flag.Int("sample", 2000, "exhaust: emit 1 of this many cyclic graphs")
@@ -940,6 +941,7 @@ func main() {
 		}
 		return
 	}
+	crashes := 0
 	args := []string{"-seed", strconv.FormatUint(*seed, 10), "-n", strconv.Itoa(*n),
 		"-n4=" + strconv.FormatBool(*n4), "-big=" + strconv.FormatBool(*big), "-timeout", tmo.String(),
 		"-cases", *casesFile}
@@ -949,6 +951,12 @@ func main() {
 			c := cs[i]
 			c.Obs = &Obs{V: "crash", Crash: "fatal: " + why}
 			out.Emit(&c)
+			crashes++
+			if crashes >= *maxCrash {
+				// enough failing inputs; do not spend a timeout on every remaining case
+				out.Emit(map[string]interface{}{"aborted": true, "after_case": i, "crashes": crashes, "cases": len(cs)})
+				os.Exit(0)
+			}
 		})
 	if err != nil {
 		fmt.Fprintln(os.Stderr, err)
